@@ -215,3 +215,18 @@ for tag, pref, opq, fx, stubs, mn in (('gzip', G, OPQ, (lambda t: t), ['lib_defl
                       setup=st.replace('__CPROVER_assume(g_z_open && ', '__CPROVER_assume(') + '  __CPROVER_assume((%s != 0) == g_z_open && %s == 0);\n  g_lost = 0; g_z_err = 0;\n' % (fld, avail),
                       args=['&obj'], props=['C14', 'C15'], timeout=600,
                       note='destruction finishes and releases the compressed stream (close) and never throws; the inner writer is a member and is destroyed afterwards (C++ order of destruction, not modelled)'))
+
+# ---------------------------------------------------------------- descriptor writer: rotation
+WI_ROT = '''
+__CPROVER_requires(__CPROVER_w_ok($this, sizeof(*$this)) && __CPROVER_r_ok($1, sizeof(*$1)) && g_exc == 0 && g_closes == 0)
+__CPROVER_assigns($this->m_value, g_closes, g_closed_fd, g_exc)
+__CPROVER_ensures(g_exc == 0 || g_exc == EXC_CborOutputException)
+__CPROVER_ensures($1->which != 2 ==> (g_exc == 0 && g_closes == 0 && $this->m_value == @V0))
+__CPROVER_ensures($1->which == 2 ==> ($this->m_value == $1->fd && g_closes == (@V0 != -1 ? 1UL : 0UL) && (@V0 == -1 || g_closed_fd == @V0)))
+'''
+UNITS.append(Unit('out.fd.rotate_output', ('@_ZN4CDNS6WriterIiE13rotate_outputERKN5boost3anyE', None), contract=WI_ROT, prelude=P, opaque={'boost::any': 'struct any', 'std::type_info': 'struct type_info', 'stat': 'struct stat_s'},
+                  inline=[('@_ZN4CDNS6WriterIiE4openEv', None)], auto_inline=[r'Writer_i32__close'], ghost=[('int', 'V0', '$this->m_value')],
+                  stubs=['lib_close', 'lib_fstat', 'any\\w+', 'typeid__\\w+', 'type_info__\\w+'],
+                  setup='  static struct Writer_i32 obj; static struct any val;\n  g_closes = 0;\n', args=['&obj', '&val'], props=['C13', 'C16'], timeout=300,
+                  post='  if (g_exc != 0) { CANARY("invalid descriptor reachable"); }',
+                  note='descriptor output: a value of another type is ignored; otherwise the old descriptor is closed exactly once (never -1), the new one adopted and checked with fstat (an invalid one raises)'))
